@@ -181,6 +181,10 @@ CATALOGUE = {
     "opassign_optional_target_bigint": [("assign", "pend", I(2), "int?"), ("opassign", "pend", "+", ("big", 5))] + probe(V("pend")),
     "opassign_int_target_bigint": [("assign", "cnt", I(2)), ("opassign", "cnt", "*", ("big", 5))] + probe(V("cnt")),
     "opassign_bool_target": [("assign", "fl", B("==", V("in0"), I(1))), ("opassign", "fl", "+", I(1))] + probe(V("fl")),
+    # index chains through containers of different kinds, with constant and variable subscripts
+    "list_of_maps_const_index": [("assign", "tables", ("list", [("map", "int", "int", [(I(1), V("in0"))]), ("map", "int", "int", [(I(2), V("in1")), (I(3), I(7))])]), "[map[int, int]...]")]
+                                + probe(("mindex", ("index", V("tables"), 1), I(2))) + [("msetindex", ("index", V("tables"), 1), I(3), I(9)), ("print", ("mindex", ("index", V("tables"), 1), I(3)))],
+    "map_of_lists_const_index": [("assign", "ml", ("map", "str", "[int...]", [(S("a"), ("list", [V("in0"), I(4)]))]))] + probe(("index", ("get", ("mindex", V("ml"), S("a"))), 1)),
     # an integer literal too wide for 32 bits as operand of an expression that is not folded
     "wide_literal_operand": [("assign", "a", I(5)), ("print", B("+", V("a"), ("int", 99999999999)))] + probe(B("+", V("a"), ("int", 99999999999))),
     "wide_literal_concat": [("print", B("+", S("big"), ("int", 99999999999)))],
